@@ -118,10 +118,12 @@ TileItersPair3 == TileItersPair \cup { Tiled(Ar(<<2, 0, 2>>), 2) }
 TiledLoopsQuick == SeqsOf(TileItersQuick, 1, 1) \cup SeqsOf(TileItersPair, 2, 2)
                    \cup { <<Tiled(Ar(<<2, 0, 2>>), 2), Tiled(Dim(3), 2)>>, <<Tiled(Dim(3), 2), Tiled(Ar(<<2, 0, 2>>), 2)>> }
                    \cup { <<Tiled(Dim(3), 2), Tiled(Rg(1, 5, 2), 2), Tiled(Ar(<<2, 0>>), 1)>> }
-\* thorough: every loop with 1-2 outer and 0-2 inner iterations over the four pair classes, all triples of tiled ones
-LoopsThorough == LoopsQuick \cup { <<o, i>> : o \in SeqsOf(ItersPair4, 1, 2), i \in SeqsOf(ItersPair4, 0, 2) }
-                 \cup { << <<a, b>>, <<>> >> : a \in ItersAll, b \in ItersAll }
-TiledLoopsThorough == TiledLoopsQuick \cup SeqsOf(TileItersAll, 2, 2) \cup SeqsOf(TileItersPair3, 3, 3)
+\* thorough (every distinct loop shape is a JIT kernel that includes <occa.hpp>: keep it to ~300)
+LoopsThorough == LoopsQuick \cup { <<o, i>> : o \in SeqsOf(ItersPair4, 1, 2), i \in SeqsOf(ItersPair4, 0, 1) }
+                 \cup { << <<a>>, <<b>> >> : a \in ItersAll, b \in ItersPair }
+                 \cup { << <<a, b>>, <<>> >> : a \in ItersPair, b \in ItersAll }
+TiledLoopsThorough == TiledLoopsQuick \cup { <<a, b>> : a \in TileItersAll, b \in TileItersPair }
+                      \cup SeqsOf(TileItersPair, 3, 3)
 \* simulation: random loops of every arity up to 3 + 3
 LoopsSim == { <<o, i>> : o \in SeqsOf(ItersPair4 \cup {Rg(0, 2, 1)}, 1, 3), i \in SeqsOf(ItersPair4 \cup {Rg(0, 2, 1)}, 0, 3) }
 =============================================================================
